@@ -1,4 +1,156 @@
-import MetapypeModel.Model.Validate
+import MetapypeModel.Props.C01
+import MetapypeModel.Props.C05
+import MetapypeModel.Gen.Facts
+import MetapypeModel.Model.Lex
+/-
+  C04 — validation is total: only rule errors escape, collecting mode never raises.
+
+  In the model every partial Python operation on the validation path is an explicit
+  `crash` event and a non-terminating loop a `diverge` event, so the claim is a theorem:
+  for every lexer, every table satisfying `TablesWF` and EVERY tree (any names, content,
+  attributes, shape, depth) all events are rule errors.  `TablesWF` is discharged for the
+  regenerated table by kernel evaluation.  Termination of the model functions is checked
+  by Lean (structural recursion / fuel with a proved bound, see `loopW_events`).
+-/
 namespace Metapype
-theorem C04_placeholder : True := trivial
+
+/-- what validation needs from the tables: mapped rules exist, children specs lie in the exact class -/
+def TablesWF (T : Tables) : Prop :=
+  (∀ m ∈ T.mappings, (T.rules.find? (·.name == m.2)).isSome = true) ∧ (∀ r ∈ T.rules, wfTop r.children = true)
+
+theorem AllErr_ite {c : Prop} [Decidable c] {a b : List Ev} (ha : ∀ e ∈ a, ∃ k, e = .err k) (hb : ∀ e ∈ b, ∃ k, e = .err k) :
+    ∀ e ∈ (if c then a else b), ∃ k, e = .err k := by
+  split <;> assumption
+theorem AllErr_nil : ∀ e ∈ ([] : List Ev), ∃ k, e = .err k := by intro e he; cases he
+theorem AllErr_one (k : ErrKind) : ∀ e ∈ [Ev.err k], ∃ k, e = .err k := by intro e he; simp at he; exact ⟨_, he⟩
+
+theorem validateContentRule_errs (L : Lexer) (M : Bool) (n : Nat) (c : Option String) (cr : String) :
+    ∀ e ∈ validateContentRule L M n c cr, ∃ k, e = .err k := by
+  unfold validateContentRule validateRanged
+  cases c <;>
+  repeat (first | exact AllErr_nil | exact AllErr_one _ | apply AllErr_ite)
+
+theorem validateContent_errs (L : Lexer) (r : Rule) (M : Bool) (n : Nat) (c : Option String) :
+    ∀ e ∈ validateContent L r M n c, ∃ k, e = .err k := by
+  intro e he
+  simp only [validateContent, List.mem_append, List.mem_flatMap] at he
+  rcases he with ⟨cr, _, he⟩ | he
+  · exact validateContentRule_errs L M n c cr e he
+  · repeat' split at he
+    all_goals first | (cases he; done) | (simp only [List.mem_singleton] at he; exact ⟨_, he⟩)
+
+theorem validateAttrs_errs (spec : List AttrSpec) (attrs : Dict) : ∀ e ∈ validateAttrs spec attrs, ∃ k, e = .err k := by
+  intro e he
+  simp only [validateAttrs, List.mem_append, List.mem_map, List.mem_filterMap] at he
+  rcases he with ⟨_, _, rfl⟩ | ⟨kv, _, he⟩
+  · exact ⟨_, rfl⟩
+  · repeat' split at he
+    all_goals first | (cases he; done) | (simp only [Option.some.injEq] at he; exact ⟨_, he.symm⟩)
+
+theorem validateChildrenRaw_errs (nodeName : String) (M : Bool) (s : Spec) (hw : wfTop s = true) (xs : List String) :
+    ∀ e ∈ validateChildrenRaw nodeName M s xs, ∃ k, e = .err k := by
+  intro e he
+  -- on an all-error list `validateChildren` is the raw list, and C01 bounds its events
+  have hfam := C01_error_family s hw nodeName M xs
+  have hall : ∀ e ∈ validateChildrenRaw nodeName M s xs, e = .err .childNotAllowed ∨ OccEv e := by
+    intro e he
+    simp only [validateChildrenRaw] at he
+    split at he
+    · split at he
+      · simp at he; subst he; exact Or.inr (Or.inr (Or.inl rfl))
+      · cases he
+    · simp only [List.mem_append, List.mem_map] at he
+      rcases he with (⟨_, _, rfl⟩ | he) | he
+      · exact Or.inl rfl
+      · exact Or.inr (matchTop_evs M s hw xs e he)
+      · split at he
+        · cases he
+        · simp at he; subst he; exact Or.inl rfl
+  rcases hall e he with h | h | h | h | h <;> exact ⟨_, h⟩
+
+theorem collectNode_errs (L : Lexer) (T : Tables) (hT : TablesWF T) (name : String) (c : Option String) (a : Dict)
+    (ks : List String) : ∀ e ∈ collectNode L T name c a ks, ∃ k, e = .err k := by
+  intro e he
+  simp only [collectNode, Tables.ruleOf] at he
+  cases hf : T.mappings.find? (·.1 == name) with
+  | none => rw [hf] at he; simp only [List.mem_singleton] at he; exact ⟨_, he⟩
+  | some m =>
+    rw [hf] at he
+    have hm := List.mem_of_find?_eq_some hf
+    have hex := hT.1 m hm
+    cases hr : T.rules.find? (·.name == m.2) with
+    | none => rw [hr] at hex; simp at hex
+    | some r =>
+      obtain ⟨m1, m2⟩ := m
+      simp only at hr he
+      rw [hr] at he
+      simp only at he
+      have hrm := List.mem_of_find?_eq_some hr
+      simp only [validateRule] at he
+      have hall : ∀ e ∈ validateContent L r (isMixed T.mixedRules r) ks.length c ++ validateAttrs r.attrs a ++
+          validateChildrenRaw name (isMixed T.mixedRules r) r.children ks, ∃ k, e = .err k := by
+        intro e he
+        simp only [List.mem_append] at he
+        rcases he with (he | he) | he
+        · exact validateContent_errs _ _ _ _ _ e he
+        · exact validateAttrs_errs _ _ e he
+        · exact validateChildrenRaw_errs _ _ _ (hT.2 r hrm) _ e he
+      rw [cutAtCrash_of_errs _ hall] at he
+      exact hall e he
+
+theorem cutAtCrashP_of_errs : ∀ (l : List PEv), (∀ e ∈ l, ∃ k, e.2 = .err k) → cutAtCrashP l = l
+  | [], _ => rfl
+  | (p, .err k) :: es, h => by
+    simp only [cutAtCrashP]
+    rw [cutAtCrashP_of_errs es (fun e he => h e (List.mem_cons_of_mem _ he))]
+  | (p, .crash e) :: es, h => by obtain ⟨k, hk⟩ := h _ List.mem_cons_self; cases hk
+  | (p, .diverge) :: es, h => by obtain ⟨k, hk⟩ := h _ List.mem_cons_self; cases hk
+
+theorem raw_errs (L : Lexer) (T : Tables) (hT : TablesWF T) (t : Tree) :
+    ∀ pe ∈ (visible t []).flatMap (nodeEvents L T), ∃ k, pe.2 = .err k := by
+  intro pe hpe
+  simp only [List.mem_flatMap, nodeEvents, List.mem_map] at hpe
+  obtain ⟨pn, _, ev, hev, rfl⟩ := hpe
+  exact collectNode_errs L T hT _ _ _ _ ev hev
+
+/-- nothing but rule errors: no event of any validation run is a crash or a divergence -/
+theorem C04_no_crash (L : Lexer) (T : Tables) (hT : TablesWF T) (t : Tree) :
+    ∀ pe ∈ collectTree L T t, ∃ k, pe.2 = .err k := by
+  rw [C05_collect_concat, cutAtCrashP_of_errs _ (raw_errs L T hT t)]
+  exact raw_errs L T hT t
+
+/-- hence collecting mode returns the complete concatenated list (nothing is cut off by an exception) -/
+theorem C04_collect_complete (L : Lexer) (T : Tables) (hT : TablesWF T) (t : Tree) :
+    collectTree L T t = (visible t []).flatMap (nodeEvents L T) := by
+  rw [C05_collect_concat, cutAtCrashP_of_errs _ (raw_errs L T hT t)]
+
+/-- the error list stays empty exactly when the fail-fast call on the same tree succeeds -/
+theorem C04_collect_iff (L : Lexer) (T : Tables) (t : Tree) :
+    collectTree L T t = [] ↔ failfastTree L T t = none := by
+  simp only [failfastTree, List.head?_eq_none_iff]
+
+/-- every appended entry names a node of the tree (a visible one) -/
+theorem C04_entry_node_in_tree (L : Lexer) (T : Tables) (hT : TablesWF T) (t : Tree) :
+    ∀ pe ∈ collectTree L T t, ∃ n, (pe.1, n) ∈ visible t [] := by
+  rw [C04_collect_complete L T hT t]
+  intro pe hpe
+  simp only [List.mem_flatMap, nodeEvents, List.mem_map] at hpe
+  obtain ⟨pn, hpn, ev, _, rfl⟩ := hpe
+  exact ⟨pn.2, hpn⟩
+
+/-- every error kind of the model is a member of the regenerated `ValidationError` enumeration -/
+theorem C04_codes_are_members : ∀ k : ErrKind, k.toString ∈ Gen.validationErrorMembers := by
+  intro k; cases k <;> decide
+
+/-- the regenerated tables satisfy `TablesWF` (kernel evaluation over the whole table) -/
+theorem C04_tables_wf : TablesWF Gen.tables := by
+  constructor
+  · decide +kernel
+  · exact C01_table_wf
+
+/-- non-vacuity / instance: for the shipped tables and the modelled lexer no tree whatsoever makes validation crash -/
+theorem C04_total_for_shipped_tables (t : Tree) :
+    ∀ pe ∈ collectTree Lex.lexer Gen.tables t, ∃ k, pe.2 = .err k :=
+  C04_no_crash Lex.lexer Gen.tables C04_tables_wf t
+
 end Metapype
